@@ -111,6 +111,22 @@ CLAIMS.update({
              "computes ordinary arithmetic; values near discontinuities; float re-association error."),
 })
 
+CLAIMS.update({
+    "C10": dict(
+        technique="template extraction + hole-safety/time/operator-identity rules on arrayed paths; sibling comparison of the dot operator's two case tables; index-pattern matching of the summation loops",
+        design_ref="DESIGN.md 3/C10",
+        text="Decides for all shapes at once (the generator has one template per case, not per shape): every arrayed return path "
+             "of + - * /, scalar multiply, dot and the aggregates is hole-safe, passes the time through and computes its class's "
+             "reference expression; both operands of an element-wise operator walk the operator's own index; "
+             "DotOperator.resolve_dimensions - the acceptance gate - raises on each of the four shape mismatches and on value.value "
+             "and answers numpy's result shape per case, and term()'s guards agree with it; the five summation loops have the index "
+             "patterns A[k]B[k], A[k]B[k][j], A[i][k]B[k], A[i][k]B[k][j] over the shared dimension under their own case tests; "
+             "aggregate classes map to np.mean/np.median/np.std, '+'/'*' joins, descending rank, vector_size; Element.arr_* build "
+             "the like-named operator.",
+        note="Not decided: element values against numpy (numeric), numpy itself, named-index cloning (Element._handle_arrayed's "
+             "dispatch is read only through the operators it calls)."),
+})
+
 NOT_APPLICABLE = {p: _PENDING for p in
-                  ["C03", "C04", "C05", "C06", "C07", "C08", "C09", "C10",
+                  ["C03", "C04", "C05", "C06", "C07", "C08", "C09",
                    "C16", "C19", "C20"]}
